@@ -22,7 +22,8 @@ RecGuards(e) == {<<"G_C20_HistoryPreserved", \A u \in Users : ObsIds(e, u) = Ids
                  <<"G_C20_ListConsistent", \A u \in Users : \A i \in DOMAIN e.mem[u] : e.mem[u][i].id # 0 - 1>>}
 StreamGuards(e) ==
     LET resp == e.responded fast == e.fast IN
-    {<<"G_C20_Published", \A i \in DOMAIN resp : \E j \in DOMAIN fast : fast[j] = resp[i]>>,
+    \* ... and a subscriber that fell behind (lost what overflowed its queue) and reads again is still a subscriber
+    {<<"G_C20_Published", (\A i \in DOMAIN resp : \E j \in DOMAIN fast : fast[j] = resp[i]) /\ e.resumedSubscriberReceives>>,
      \* ... also for certificates signed back to back while the events were still queued
      <<"G_C20_SameBytes", (\A j \in DOMAIN fast : fast[j] # 0) /\ e.burst > 0 /\ e.burstMismatch = 0>>,
      \* responses are numbered in issuing order, so "subsequence of the responses" is "strictly increasing"
